@@ -40,5 +40,10 @@ CHECKS = {
   "note": "Trusted: documented canonical pairs; records with strand '.' are not judged; a novel model strand is flagged only when it contradicts every available kind of evidence.",
   "technique": "hooked query log + offline recomputation from the reference sequence (reference-model oracle)",
  },
+ "C20": {
+  "text": "Rounds of 2-16 real IsoQuant runs released together under one HOME (fresh or pre-populated cache, equal or different annotations) with seeded delays injected at the load->re-open and open->dump gaps of the shared JSON cache files; every run must exit 0 and produce the tree it produces alone, every logged cache read must parse, the cache file must be valid JSON afterwards, and the database each run used must contain exactly its own GTF's transcripts; the read_mapper index/BED/alignment caches are driven through their real find_stored_*/store_* functions from concurrent processes. Evidence counts rounds in which read-modify-write windows actually overlapped. Interleavings are sampled.",
+  "note": "Trusted: timestamps from one monotonic clock per machine; lost cache entries are not treated as violations; the FASTQ/minimap2 path cannot run here, so the mapper caches are exercised at function level with stub files.",
+  "technique": "concurrent stress executions with injected delays at hooked cache-file accesses + offline checker over the access log and outputs",
+ },
 }
 NOT_APPLICABLE = {}
